@@ -32,6 +32,14 @@ LIVE_INV = [
     "self.nested_samples[i]['it'] <= i and "
     "self.state.logLs[self.nested_samples[i]['it']] < "
     "self.nested_samples[i]['logL'])",
+    # one insertion index per iteration; no point is both recorded and
+    # live, no duplicated live point (C13's resumable-state clauses; new
+    # points are distinguished by their iteration stamp)
+    "len(self.insertion_indices) == self.iteration",
+    "forall2(i, self.nlive, k, len(self.nested_samples), "
+    "not row_eq(self.live_points[i], self.nested_samples[k]))",
+    "forall2(i, self.nlive, j, self.nlive, "
+    "implies(i != j, not row_eq(self.live_points[i], self.live_points[j])))",
 ] + ev_inv("self.state")
 
 contract(
@@ -102,7 +110,7 @@ contract(
     params={"force": "Bool"},
     requires=["self.block_iteration >= 0"],
     modifies=["self.block_acceptance", "self.block_iteration",
-              "self.proposal"],
+              "self.proposal", "self.ghost_ckpt_writes"],
     ensures=["self.block_iteration >= 0"],
 )
 contract(
@@ -112,7 +120,7 @@ contract(
     params={"force": "Bool"},
     requires=["self.block_iteration >= 0"],
     modifies=["self.block_acceptance", "self.block_iteration",
-              "self.proposal"],
+              "self.proposal", "self.ghost_ckpt_writes"],
     ensures=["self.block_iteration >= 0"],
 )
 
@@ -122,6 +130,7 @@ CONSUME_MOD = [
     "self.block_iteration", "self.insertion_indices", "self.accepted",
     "self.rejected", "self.block_acceptance", "self.acceptance_history",
     "self.mean_block_acceptance", "self.proposal", "self.model",
+    "self.ghost_ckpt_writes",
 ]
 
 contract(
@@ -142,10 +151,12 @@ contract(
             "self.logLmin == old(self.live_points)[0]['logL']",
             "self.iteration == old(self.iteration) + 1",
             "row_eq(worst, old(self.live_points)[0])",
+            "len(self.insertion_indices) == old(len(self.insertion_indices))",
         ],
             "modifies": ["self.rejected", "self.block_iteration",
                          "self.block_acceptance", "self.proposal",
-                         "self.logLmax", "self.model"]},
+                         "self.logLmax", "self.model",
+                         "self.ghost_ckpt_writes"]},
     },
     ensures=LIVE_INV + [
         # the removed point is the minimum and is recorded exactly once
@@ -227,7 +238,8 @@ contract(
     requires=LIVE_INV + ["self.block_iteration >= 0"],
     modifies=["self.state", "self.nested_samples", "self.live_points",
               "self.finalised", "self.block_acceptance",
-              "self.block_iteration", "self.proposal"],
+              "self.block_iteration", "self.proposal",
+              "self.ghost_ckpt_writes"],
     loops={
         0: {"index": "k",
             "inv": ev_inv("self.state") + [
